@@ -5,11 +5,13 @@ ENTRY = dict(
         title="Decomposing cut placeholders puts the selected operations in the right place",
         prop_file="Properties/C14.v",
         corr_files=["Corr/C14Corr.v"],
-        theorems=["c14_splice", "c14_assign", "c14_validate_characterised", "c14_no_placeholder", "c14_others_in_order",
+        theorems=["c14_splice", "c14_splice_totalised", "c14_splice_strict_agrees", "c14_assign", "c14_validate_characterised",
+                  "c14_no_placeholder", "c14_others_in_order", "c14_others_in_order_weak",
                   "c14_measure_bits", "c14_refuse_length", "c14_refuse_non_placeholder", "c14_refuse_differing_bases",
                   "c14_refuse_count", "c14_refuse_repeated_index", "c14_refuse_2q_in_pair", "c14_refuse_maps_length",
-                  "c14_refuse_map_none", "c14_refuse_map_out_of_range", "c14_decided", "c14_never_crashes", "c14_omitted",
-                  "c14_omitted_never_crashes", "c14_setter", "c14_setter_invariant", "c14_basis_eq",
+                  "c14_refuse_map_none", "c14_refuse_map_out_of_range", "c14_decided", "c14_decided_totalised",
+                  "c14_never_crashes", "c14_index_outside_not_ok", "c14_index_outside_single_crashes", "c14_omitted",
+                  "c14_omitted_never_crashes", "c14_setter_def", "c14_setter_invariant", "c14_basis_eq_reflects",
                   "c14_accepted_pair_same_basis", "c14_refuse_unequal_bases", "c14_refines", "c14_validate_quotient",
                   "c14_all_2q_split", "c14_2q_split_order_irrelevant", "c14_facts"],
         allowed_axioms=[],
@@ -18,20 +20,38 @@ ENTRY = dict(
         harness="c14",
         level_text="Unbounded theorems (all circuit lengths, all placements and mixes of placeholders, all groupings, all in-range map "
                    "choices, all basis tables including empty sequences) about the executable model of decompose_qpd_instructions that "
-                   "keeps the Python running offsets (sorted 2q indices, overwrite-first/insert-rest, delete-on-empty with offset -1): "
-                   "the result equals the declarative splice `measures_numbered nc (flat_map splice (assign c ids maps))`; corollaries: no "
-                   "placeholder or marker left, other instructions kept in order, markers numbered consecutively into a final register of "
-                   "size max(1, #markers), one refusal theorem per class of inconsistent grouping / out-of-range, None or miscounted map "
-                   "choice, omitted map choice = decomposition or refusal, and totality (c14_decided): every request whose indices lie "
-                   "inside the circuit is either the splice or a refusal, never a crash. Closed under the global context. The model is run "
-                   "inside Coq on every input the implementation ran on (about 1100 generated calls per quick run, inplace False and True) "
-                   "and compared instruction by instruction.",
-        level_note=STD_NOTE + "No axioms. The clause 'the input circuit is untouched unless inplace' is not a theorem (the model is "
-                   "functional); it is observed on every generated call and enters the per-case verdict, as do 'a refused in-place call leaves its "
-                   "argument unchanged' and 'the new register is the last one'. Observations outside the property's quantifier (not "
-                   "generated, not judged): negative instruction indices are accepted by Python indexing and misplace the second half of a "
-                   "2q placeholder (qc.h(1); TwoQubitQPDGate(cx) on [0,1]; ids [[-1]], map 3 puts half 1 before h(1)); a second call on an "
-                   "already decomposed circuit raises CircuitError (register name qpd_measurements exists).",
+                   "keeps the Python running offsets (sorted 2q indices, overwrite-first/insert-rest, delete-on-empty with offset -1). "
+                   "PROVED about the model: for an accepted request with in-range map ids on a well-shaped circuit (wf_shape: shapes "
+                   "Python can build) the result equals the declarative, default-free splice (c14_splice); no placeholder or marker is "
+                   "left; every other instruction is found at its computed position (c14_others_in_order, positional); markers are "
+                   "numbered consecutively into a register of size max(1, #markers); one refusal theorem per class the validation "
+                   "knows (length, non-placeholder, differing bases, count, repeated index, 2q gate in a pair) and per bad map choice "
+                   "(length, None, out of range incl. negative) — each for indices INSIDE the circuit; an index outside the circuit is "
+                   "not refused but answered by Refused-or-Crashed (c14_index_outside_*: the code raises IndexError); the decision "
+                   "theorem c14_decided (hypotheses: indices inside the circuit, wf_shape, and the class invariant wfb 'a set basis_id "
+                   "is in range', which the modelled setter establishes for one- and two-qubit gates): splice or refusal, never a "
+                   "crash; omitted map choice likewise under wfb; QPDBasis equality modelled and the object model proved to refine "
+                   "the handle model (under wfb); the 2q-splitting loop splits every two-qubit placeholder whatever the listing "
+                   "order. Closed under the global context. ONLY CORRESPONDENCE-TESTED (about 1700 calls per quick run, compared "
+                   "instruction by instruction inside Coq, with the handle model and the object model): that the Python functions "
+                   "(validation, setter, QPDBasis.__eq__, _define, the loops) are these model functions; that the new register is the "
+                   "last one; that the input is untouched unless in place; that a refused in-place call leaves its argument unchanged.",
+        level_note=STD_NOTE + "No axioms. Kinds of remaining hypotheses: input preconditions (valid / ids_in_range / wf_shape), class "
+                   "invariant wfb (established by the modelled setter, c14_setter_invariant; Python can still break it by shrinking the "
+                   "list passed to QPDBasis after a basis_id was set, because _set_maps stores the caller's list uncopied — then the "
+                   "model answers Crashed = IndexError in _define), success-case premises (decompose = Ok (out, k)) in the corollaries. "
+                   "c14_setter_def and c14_basis_eq_reflects are statements about the one-line model definitions of the setter and of "
+                   "QPDBasis.__eq__, tied to the source by facts/correspondence, not proofs about Python. What counts as an "
+                   "'inconsistent grouping' is exactly what c14_validate_characterised lists; a pair of two half-0 gates of one basis, "
+                   "a lone half of a two-qubit basis and two gates of a one-qubit basis grouped as a pair are ACCEPTED by code and "
+                   "model and decomposed half by half (c14_ex_accepted_odd_groupings); the property text speaks of placement, which "
+                   "is well defined for them, so they are not treated as inconsistent. Observations (not generated, not judged): an "
+                   "instruction index outside the circuit raises IndexError instead of ValueError (the docstring documents neither); "
+                   "negative instruction indices are accepted by Python indexing and misplace the second half of a 2q placeholder "
+                   "(qc.h(1); TwoQubitQPDGate(cx) on [0,1]; ids [[-1]], map 3 puts half 1 before h(1)); a second call on an already "
+                   "decomposed circuit raises CircuitError (register name qpd_measurements exists). c14_no_placeholder, "
+                   "c14_measure_bits, c14_omitted and the *_totalised theorems use the totalised splice (qubits by nth with default 0); "
+                   "on well-shaped circuits it equals the default-free one (c14_splice_strict_agrees).",
         assumptions=[
             "Model/Decompose.v is a hand-written model of decompose_qpd_instructions, _validate_qpd_instructions, "
             "_decompose_qpd_instructions, _decompose_qpd_measurements, the basis_id setter range check and both _define methods; tied to "
@@ -39,8 +59,8 @@ ENTRY = dict(
             "sorted() call, the offset updates +1/+1/-1, the register size max(1, .))",
             "the model follows the REPAIRED behaviour: unset basis_id refused before any rewriting (F5, c8b859e); None / out-of-range "
             "map ids refused before any assignment (417f876, 32107ac); and the validation also refuses an instruction index mentioned "
-            "twice and a TwoQubitQPDGate inside a two-element group (property: 'inconsistent groupings are refused'). Until the last "
-            "repair is committed the facts (7 ValueErrors in _validate_qpd_instructions) and the correspondence fail on /repo",
+            "twice and a TwoQubitQPDGate inside a two-element group (property: 'inconsistent groupings are refused'). (all "
+            "committed in /repo: 417f876, c8b859e, 32107ac, 50945eb)",
             "known finding F17 (one gate object appended at several positions, inplace=True: every position gets the map id assigned "
             "last): such cases are compared with a model of the current aliasing behaviour in a separate quiet group only while "
             "KNOWN_FINDINGS.json lists C14/F17 as known; otherwise they are compared with the property-demanding model and alarm",
